@@ -10,6 +10,7 @@ import (
 	"testing"
 	"time"
 
+	"github.com/prometheus/prometheus/model/labels"
 	"github.com/prometheus/prometheus/promql/parser"
 	"pgregory.net/rapid"
 
@@ -849,7 +850,9 @@ func runC27(c c27Case, r *ev.Rec) error {
 		}
 		if _, ok := instErr[cl]; !ok {
 			sig := ""
-			if cl == "vector cannot contain metrics with the same labelset" && len(instErr) == 0 {
+			if cl == "vector cannot contain metrics with the same labelset" && (len(instErr) == 0 || c27MultiNameRangeCall(ast)) {
+				// listed finding: a range-vector function checks its whole output matrix for equal
+				// label sets (after dropping the name), not each step
 				sig = "c27-range-same-labelset-across-steps"
 			}
 			msg := fmt.Sprintf("query %q (lookback %dms): the range query [%d,%d] step %d fails with %q but no step's instant query fails that way (instant errors: %v)", c.Expr, c.Eng.LookbackMs, c.Start, end, c.Step, rng.Err, firstInstErr)
@@ -899,6 +902,37 @@ func runC27(c c27Case, r *ev.Rec) error {
 		r.NonTrivial()
 	}
 	return nil
+}
+
+// c27MultiNameRangeCall: some range-vector function is applied to a selector that can match
+// several metric names (no equality matcher on __name__) or to a subquery.
+func c27MultiNameRangeCall(e parser.Expr) bool {
+	hit := false
+	parser.Inspect(e, func(n parser.Node, _ []parser.Node) error {
+		c, ok := n.(*parser.Call)
+		if !ok {
+			return nil
+		}
+		for _, a := range c.Args {
+			switch m := a.(type) {
+			case *parser.SubqueryExpr:
+				hit = true
+			case *parser.MatrixSelector:
+				vs := m.VectorSelector.(*parser.VectorSelector)
+				eq := false
+				for _, lm := range vs.LabelMatchers {
+					if lm.Name == "__name__" && lm.Type == labels.MatchEqual {
+						eq = true
+					}
+				}
+				if !eq {
+					hit = true
+				}
+			}
+		}
+		return nil
+	})
+	return hit
 }
 
 // c27LazyValidation: the engine checks "anchored / smoothed modifier can only be used with
